@@ -4,11 +4,12 @@
 -/
 import FsModel.PathDriver
 import FsModel.RefDriver
+import FsModel.FileDriver
 
 open Fs
 
 def handlers : List (String → List String → Option String) :=
-  [ PathDriver.handle, RefDriver.handle ]
+  [ PathDriver.handle, RefDriver.handle, FileDriver.handle ]
 
 def dispatch (line : String) : String :=
   match (line.trimAscii.toString.splitOn " ").filter (· ≠ "") with
